@@ -26,8 +26,13 @@ def build(flavour="plain"):
     d = os.path.join(root, key)
     if os.path.exists(os.path.join(d, ".ok")):
         return d
+    import time
     for old in glob.glob(os.path.join(root, "*-s2" + flavour)):
-        shutil.rmtree(old, ignore_errors=True)
+        try:
+            if time.time() - os.path.getmtime(os.path.join(old, ".ok")) > 1800:
+                shutil.rmtree(old, ignore_errors=True)
+        except OSError:
+            pass
     tmp = d + ".tmp%d" % os.getpid()
     shutil.rmtree(tmp, ignore_errors=True)
     os.makedirs(tmp)
